@@ -3,6 +3,7 @@
 list of still-open known findings is kept as committed).  Run by hand, never by a check."""
 import json, subprocess
 PROP = {  # subject prefix -> (properties, what failed before the repair)
+ "nanops max/min with skipna=False": ("C20", "nanops.nanmax / nanmin(skipna=False): a NaN that was not skipped was dropped or restarted the scan, differently per thread count (nanmin([5,NaN,7], skipna=False) = 7, NaN, 7, 5 for 1, 2, 3, 4 threads; NumPy's plain min gives NaN)"),
  "the non-skipping max/min keep a null": ("C08", "cummax / cummin(skip_na=False): a null in the FIRST position of a group was dropped ([NaN,5,7] -> [NaN,5,7]) although a later one sticks ([5,NaN,7] -> [5,NaN,NaN]); a NaT never stuck to a running maximum of timestamps"),
  "merge of per-block partial": ("C03 C04", "group_min/max/first with n_threads>=2: a group absent from the first block came back null (reduce_array_pair without counts)"),
  "chunked value arrays reach": ("C04 C16", "var of one float32 value gave inf; squares taken in the input dtype; chunked values missed the chunked path"),
